@@ -81,8 +81,9 @@ def optB (s : String) : Option Bool := if s == "T" then some true else if s == "
 
 def report (st : St) (issues : List String) : St × List Issue :=
   issues.foldl (fun (acc : St × List Issue) e =>
+    -- an issue class already reported before the refused reconfiguration is not its consequence
+    if acc.1.tainted && acc.1.reported.contains ((e.splitOn " ").headD e) then acc else
     let e := if acc.1.tainted && !e.startsWith "C13:unchanged-config-rejected" then s!"{(e.take 3).toString}:after-rejected-reconfigure {e}" else e
-    if acc.1.tainted && acc.1.reported.contains ((e.splitOn " ").getD 1 e) then acc else
     let cls := (e.splitOn " ").headD e
     if acc.1.reported.contains cls then acc else
     ({ acc.1 with reported := cls :: acc.1.reported }, acc.2 ++ [⟨.property, s!"{e.replace " " "_"} hist={acc.1.hist}"⟩])) (st, [])
@@ -312,7 +313,10 @@ def step (st : St) (toks : List String) : St × List Issue :=
     let errs := if st.lastEv.head? != some "reconfig" && ids.eraseDups.length != ids.length then errs ++ ["C05:several-updates-for-one-container"] else errs
     let errs := ups.foldl (fun errs (id, _) =>
       match getCtr st id with
-      | some c => if c.state == "stopped" || c.state == "removed" || c.state == "refused" then errs ++ [s!"C05:update-to-dead-container {id} ({c.state})"] else errs
+      | some c => if c.state == "stopped" || c.state == "removed" || c.state == "refused" then
+          -- a change left pending by an error reply (known finding) that is delivered after the container stopped is that finding's consequence
+          errs ++ [if st.errPending.contains id then s!"C05:pending-after-error-reply delivered-to-{c.state}-container {id}" else s!"C05:update-to-dead-container {id} ({c.state})"]
+        else errs
       | none => errs ++ [s!"C05:update-to-unknown-container {id}"]) errs
     -- event-specific bookkeeping
     let (st, errs) := match st.lastEv with
@@ -345,7 +349,8 @@ def step (st : St) (toks : List String) : St × List Issue :=
         let errs := if !acc.1.snap.pinCPU && r.getD 0 "-" != "-" then errs ++ [s!"C12:cpus-told-with-pinning-disabled {id}"] else errs
         let errs := if !acc.1.snap.pinMem && r.getD 1 "-" != "-" then errs ++ [s!"C12:mems-told-with-pinning-disabled {id}"] else errs
         let rt' := overlay c.rt r
-        let errs := if isReconfig && rt' != c.rt then errs ++ [s!"C13:unchanged-config-changed-resources {id}"] else errs
+        -- (changes left pending by an earlier error reply and merely delivered now are not caused by the re-application)
+        let errs := if isReconfig && rt' != c.rt && !acc.1.errPending.contains id then errs ++ [s!"C13:unchanged-config-changed-resources {id}"] else errs
         (setCtr acc.1 { c with rt := rt', told := overlay c.told r }, errs)
       | none => acc) (st, errs)
     report st errs
